@@ -180,12 +180,15 @@ impl Scenario for Rl {
         10 * self.scale
     }
     fn init(&self, w: &mut World) -> X {
+        // (timeouts 40 and 100 ms: a no-op listener is registered for every event type)
+        let with_listeners = self.timeout == 40 || self.timeout == 100;
         let layer = (if self.from_preset { RateLimiterLayer::burst(3, 4) } else { RateLimiterLayer::builder() })
             .limit_for_period(self.limit)
             .refresh_period(Duration::from_millis(self.period()))
             .timeout_duration(self.timeout_dur())
-            .window_type(self.window)
-            .build();
+            .window_type(self.window);
+        let layer = if with_listeners { layer.on_permit_acquired(|_| {}).on_permit_rejected(|_| {}).on_permits_refreshed(|_| {}) } else { layer };
+        let layer = layer.build();
         X { svc: layer.layer(GatedInner::new(w.inner.clone())), pre: None }
     }
     fn arrive(&self, w: &mut World, x: &mut X, c: usize, _v: u8) {
